@@ -428,6 +428,9 @@ impl ModelDoc {
         return format!("{k}: {} vs {}", a[k], b[k]);
       }
     }
+    if self != other {
+      return format!("same entries in a different order: {} vs {}", self.to_json(), other.to_json());
+    }
     "equal".to_owned()
   }
 }
